@@ -188,7 +188,7 @@ def r33_desugar(text, counter):
         if st is None: raise ValueError('receiver of .%s not recognised' % name)
         recv = text[st:dot].strip()
         params = cm.group(1).strip(); body = cm.group(2).strip()
-        if ':' in params or '_' == params: raise ValueError('typed or wildcard closure parameter')
+        if ':' in params: raise ValueError('typed closure parameter')
         other = [inner_s[a_:b_].strip() for a_, b_ in args[:-1]]
         counter[0] += 1; k = counter[0]
         v = 'r33_v%d' % k
